@@ -120,6 +120,19 @@ def behave(plan, n):
                 plan["_shared_err"] = ResolverError("shared resolver error")
             raise plan["_shared_err"]
         raise ResolverError("resolver error at %d" % n, extensions={"node": n})
+    # gamma: the class of the unexpected exception - a plain RuntimeError, one of the library's own located errors that is NOT a
+    # ResolverError (e.g. what EnumType.get_value raises), or a built-in IndexError (which a careless `except IndexError` swallows)
+    kind = (plan.get("variant") or {}).get("crash", "runtime")
+    if kind == "located":
+        from py_gql.exc import UnknownEnumValue
+
+        class LocatedCrash(UnknownEnumValue, Crash):
+            pass
+        raise LocatedCrash("crash at %d" % n)
+    if kind == "index":
+        class IndexCrash(Crash, IndexError):
+            pass
+        raise IndexCrash("crash at %d" % n)
     raise Crash("crash at %d" % n)
 
 
